@@ -40,6 +40,7 @@ def run(ctx):
     ctx.rule("R10.drop-policy-provenance", "every slab is created with the owning pool's slab_layout and drop_policy fields; every pool constructor/builder hands the configured policy on unchanged", floor=5)
     ctx.rule("R11.lowest-vacancy-cache", "the vacancy cache always names the LOWEST slab with a vacancy: a new vacancy below the cached index (or with no cached index) replaces it - the refill search after a slab fills only looks forward", floor=2)
     ctx.rule("R13.builder-steps-carry-options", "every by-value step of the pool builders returns self with all other options intact (no `..Default::default()` rebuild): a lost drop policy silently changes what the pool does with live objects on drop", floor=4)
+    ctx.rule("R15.iterator-cursor-coherence", "pool iteration: after the slab cursor (current_*_slab_index) moves, the cached per-slab iterator is reset before the next loop round or return - a cached iterator of the slab just finished repeats that slab and never visits the next", floor=2)
     ctx.rule("R14.free-list-head", "Slab::next_free_slot_index is only initialised, advanced to the filled slot's stored next index, or set to the released slot's index", floor=3)
     ctx.rule("R12.counts-are-not-positions", "no slab index, slab/slot scan bound or iterator cursor derives from an object count (RawOpaquePool::length, Slab::count): holes make counts useless as positions", floor=10)
     ctx.rule("R9.shrink-keeps-live", "shrink_to_fit only drops trailing EMPTY slabs (a non-empty slab dropped = objects destroyed while handles exist); same rule as C01.R3", floor=1, shape_dependent=True)
@@ -410,6 +411,7 @@ def run(ctx):
     counts_are_not_positions(ctx, prog, "R12.counts-are-not-positions")
     builder_steps_rule(ctx, prog, "R13.builder-steps-carry-options")
     free_list_rule(ctx, prog, "R14.free-list-head")
+    cursor_coherence_rule(ctx, prog, "R15.iterator-cursor-coherence")
 
     # ---------------- R8 Slab::drop
     sd = prog.one("<infinity_pool::opaque::slab::Slab as std::ops::Drop>::drop")
@@ -481,6 +483,7 @@ def shared_rules(ctx, prog):
     ctx.import_rules("C04", {
         "R4.restore-before-destroy": "a destructor that panics after part of the bookkeeping leaves len() and the slot tags disagreeing",
         "R3.before-ok-premise": "a slab pushed without telling the vacancy tracker is lost to accounting when the initialiser panics",
+        "R5.containment": "a pool guard still held when a caught user panic is re-raised poisons the pool mutex: every later handle drop panics before it removes anything, so the objects are never destroyed",
     })
 
 
@@ -792,6 +795,68 @@ def builder_steps_rule(ctx, prog, rid):
 
 
 # ------------------------------------------------------------------ R14: the intrusive free list
+def cursor_coherence_rule(ctx, prog, rid):
+    """RawOpaquePoolIterator keeps (slab index, Option<iterator of that slab>) per direction. Invariant needed for 'each live
+    object exactly once': a cached iterator always belongs to the slab the index names. Necessary condition checked: every
+    write of the index is followed, on every path to the loop head / a return, by a write of the cached iterator."""
+    n = 0
+    for b in prog.bodies:
+        if "RawOpaquePoolIterator" not in b.key or b.is_closure or "::tests" in b.key or b.name == "new":
+            continue
+        for side in ("front", "back"):
+            idx_f, it_f = f"current_{side}_slab_index", f"current_{side}_slab_iter"
+            writes = field_assigns_or_calls(b, idx_f)
+            if not writes:
+                continue
+            its = {(bb, i) for bb, i in field_assigns_or_calls(b, it_f)}
+            dom = b.dominators(unwind=False)
+            for wbb, wi in writes:
+                n += 1
+                bad = None
+                if any(bb == wbb and i > wi for bb, i in its):
+                    ok = True
+                else:
+                    ok = True
+                    seen = set()
+                    work = list(b.term_succ(wbb, False))
+                    while work and ok:
+                        x = work.pop()
+                        if x in seen:
+                            continue
+                        seen.add(x)
+                        if b.blocks[x].cleanup:
+                            continue
+                        if any(bb == x for bb, _i in its):
+                            continue
+                        if b.blocks[x].term["k"] == "return" or x in dom[wbb]:
+                            ok = False
+                            bad = "return" if b.blocks[x].term["k"] == "return" else "the loop head"
+                            break
+                        work.extend(b.term_succ(x, False))
+                ctx.ob(rid, f"{b.name}.{side}#{n}", ok, b.loc(),
+                       f"after `{idx_f}` moves, `{it_f}` is rewritten before the next round / return: {ok}" +
+                       ("" if ok else f" - {bad} is reached with the cached iterator of the previous slab still in place: that slab is yielded again and the next one skipped"))
+    if n == 0:
+        ctx.missing(rid, "writes of current_front_slab_index / current_back_slab_index in RawOpaquePoolIterator")
+
+
+def field_assigns_or_calls(body, field):
+    """(bb, position) of every write whose destination's last projection is the field: assignments and call destinations
+    (position = statement index, or len(stmts) for a terminator)."""
+    out = []
+    for blk in body.blocks:
+        if blk.cleanup:
+            continue
+        for i, st in enumerate(blk.stmts):
+            if st["k"] == "assign" and st["place"]["p"] and isinstance(st["place"]["p"][-1], dict) and str(st["place"]["p"][-1].get("f", "")).endswith("::" + field):
+                out.append((blk.idx, i))
+        t = blk.term
+        if t["k"] == "call" and isinstance(t.get("dest"), dict) and t["dest"]["p"] and isinstance(t["dest"]["p"][-1], dict) and \
+                str(t["dest"]["p"][-1].get("f", "")).endswith("::" + field):
+            out.append((blk.idx, len(blk.stmts)))
+    return out
+
+
 def free_list_rule(ctx, prog, rid):
     """`Slab::next_free_slot_index` is the head of an intrusive, arbitrarily ordered free list: it is only ever (a) initialised
     by Slab::new, (b) advanced to the index stored in the slot being filled (insert), (c) set to the index of the slot just
